@@ -23,6 +23,67 @@ def _M():
     return models
 
 
+class DtypeVal:
+    """dtype of a modelled array by kind: 'i' (int64), 'f' (float64), 'b' (bool), 'U' (str), 'S' (bytes), 'O' (object)"""
+
+    def __init__(self, kind):
+        self.kind = kind
+
+    def __repr__(self):
+        return "<dtype %s>" % self.kind
+
+    def __eq__(self, o):
+        return isinstance(o, DtypeVal) and o.kind == self.kind
+
+    def __hash__(self):
+        return hash(("dtype", self.kind))
+
+
+DTYPE_NAMES = {"O": "O", "object": "O", "float64": "f", "f8": "f", "float": "f", "int64": "i", "i8": "i", "int": "i", "bool": "b"}
+
+
+def is_nan(x):
+    return isinstance(x, Opaque) and x.desc == "nan"
+
+
+def dtype_of(e):
+    """element kind numpy would have chosen for these elements (mixed int/float -> float64; anything else -> object)"""
+    forced = getattr(e, "dtype", None)
+    if forced is not None:
+        return forced
+    data = e.data
+    if not data:
+        return "f"
+    from .values import is_boollike
+
+    if all(isinstance(x, str) for x in data):
+        return "U"
+    if all(isinstance(x, bytes) for x in data):
+        return "S"
+    if all(is_boollike(x) for x in data):
+        return "b"
+    if any(is_boollike(x) for x in data):
+        raise Unsupported("dtype of an array mixing bool and other elements")
+    if all(is_intlike(x) for x in data):
+        return "i"
+    if all(is_number(x) or is_nan(x) for x in data):
+        return "f"
+    return "O"
+
+
+def as_dtype_kind(d):
+    """dtype argument (np.dtype value, class, or name) -> kind, None when not given"""
+    if d is None:
+        return None
+    if isinstance(d, DtypeVal):
+        return d.kind
+    if isinstance(d, BuiltinClass) and d.name in ("float", "int", "bool", "object"):
+        return {"float": "f", "int": "i", "bool": "b", "object": "O"}[d.name]
+    if isinstance(d, str) and d in DTYPE_NAMES:
+        return DTYPE_NAMES[d]
+    raise Unsupported("dtype %r" % (d,))
+
+
 def size(shape):
     n = 1
     for s in shape:
@@ -56,6 +117,10 @@ def to_nested(I, st, v):
     raise Unsupported("numpy array element %r" % (v,))
 
 
+class Ragged(Exception):
+    """inhomogeneous nested sequence: numpy >= 1.24 raises ValueError for it (np.array without dtype=object)"""
+
+
 def shape_of(n):
     if isinstance(n, list):
         if not n:
@@ -63,7 +128,7 @@ def shape_of(n):
         s0 = shape_of(n[0])
         for x in n[1:]:
             if shape_of(x) != s0:
-                raise Unsupported("ragged array")
+                raise Ragged()
         return (len(n),) + s0
     return ()
 
@@ -274,6 +339,8 @@ def nd_getitem(I, st, ref, idx):
 
 def nd_setitem(I, st, ref, idx, v):
     e = st.get(ref)
+    if getattr(e, "shared", False):
+        raise Unsupported("item assignment to an array that shares memory with a buffer")
     try:
         shape, pos = resolve_index(I, st, e.shape, idx)
     except IndexError:
@@ -394,7 +461,7 @@ def nd_getattr(I, st, ref, name):
             raise Unsupported("astype")
         yield st, simple(_as)
     elif name == "dtype":
-        yield st, Opaque("dtype")
+        yield st, DtypeVal(dtype_of(e))
     else:
         raise Unsupported("ndarray attribute " + name)
 
@@ -406,7 +473,11 @@ def make_module(I):
     def reg(name, fn):
         def f(I, st, a, k):
             I.trust("numpy", "A5: numpy mini-model (fixed shapes, elementwise real arithmetic, dot, indexing)")
-            yield st, fn(I, st, *a, **k)
+            try:
+                r = fn(I, st, *a, **k)
+            except Ragged:
+                r = exc("ValueError", "setting an array element with a sequence. The requested array has an inhomogeneous shape")
+            yield st, r
 
         N[name] = Builtin("numpy." + name, f)
 
@@ -470,6 +541,7 @@ def make_module(I):
     N["abs"] = Builtin("numpy.abs", elementwise(_abs))
     N["absolute"] = N["abs"]
     N["ndarray"] = BuiltinClass("ndarray")
+    reg("dtype", lambda I, st, d: DtypeVal(as_dtype_kind(d)))
     N["float64"] = BuiltinClass("float", float)
     N["int64"] = BuiltinClass("int", int)
     N["integer"] = BuiltinClass("integer")
@@ -515,6 +587,21 @@ def make_module(I):
         return is_number(v) or isinstance(v, str)
 
     reg("isscalar", _isscalar)
+
+    def _where(I, st, cond, *xy):
+        """np.where(cond) with ONE argument over a 1-d sequence of concrete truth values: (indices of the true ones,)"""
+        if xy:
+            raise Unsupported("np.where with three arguments")
+        s, d = asnd(I, st, cond)
+        if len(s) != 1:
+            raise Unsupported("np.where on a %d-d condition" % len(s))
+        if not all(isinstance(x, bool) for x in d):
+            raise Unsupported("np.where on a symbolic condition")
+        e = NdE((sum(1 for x in d if x),), [i for i, x in enumerate(d) if x])
+        e.dtype = "i"
+        return (st.alloc(e),)
+
+    reg("where", _where)
     reg("isnan", lambda I, st, v: False)  # A1: reals are never NaN
     reg("isfinite", lambda I, st, v: True)
     return N
@@ -532,3 +619,47 @@ def make_linalg(I):
 
     L["norm"] = Builtin("numpy.linalg.norm", norm)
     return L
+
+
+def ndarray_new(I, st, args, kwargs):
+    """np.ndarray(shape, dtype=float, buffer=None): with a buffer of the SAME element kind the first prod(shape) elements
+    of the buffer in row-major order (TypeError when the buffer is too small); without buffer only the object dtype is
+    modelled (numpy fills it with None).  numpy returns a view of the buffer: the result is marked `shared` and item
+    assignment to it is refused (Unsupported), a reinterpretation of the bytes under another dtype is refused too."""
+    names = ["shape", "dtype", "buffer"]
+    a = dict(zip(names, args))
+    for k, v in kwargs.items():
+        if k not in names or k in a:
+            raise Unsupported("np.ndarray argument " + k)
+        a[k] = v
+    shape = a.get("shape")
+    if isinstance(shape, Ref) and st.get(shape).kind == "nd":
+        shape = tuple(st.get(shape).data)
+    elif isinstance(shape, Ref) or isinstance(shape, tuple):
+        shape = tuple(I.iterate(shape, st))
+    else:
+        shape = (shape,)
+    if not all(isinstance(x, int) and not isinstance(x, bool) and x >= 0 for x in shape):
+        raise Unsupported("np.ndarray with a symbolic or negative shape")
+    kind = as_dtype_kind(a.get("dtype")) or "f"
+    buf = a.get("buffer")
+    if buf is None:
+        if kind != "O":
+            raise Unsupported("np.ndarray without buffer (uninitialised memory)")
+        e = NdE(shape, [None] * size(shape))
+        e.dtype = "O"
+        yield st, st.alloc(e)
+        return
+    if not (isinstance(buf, Ref) and st.get(buf).kind == "nd"):
+        raise Unsupported("np.ndarray buffer that is not an array")
+    be = st.get(buf)
+    if dtype_of(be) != kind or kind not in ("i", "f", "b"):
+        raise Unsupported("np.ndarray reinterpreting a buffer of another dtype")
+    I.trust("numpy-ndarray-buffer", "np.ndarray(shape, dtype, buffer) of the buffer's own dtype = its first prod(shape) elements; the result may not be assigned to (it is a view)")
+    n = size(shape)
+    if len(be.data) < n:
+        yield st, exc("TypeError", "buffer is too small for requested array")
+        return
+    e = NdE(shape, be.data[:n])
+    e.shared = True
+    yield st, st.alloc(e)
